@@ -205,6 +205,21 @@ func gen(t *rapid.T) Case {
 	}
 	ref := kit.Reference(s, pr, c.Case.Plan())
 	c.Overrides = kit.DrawOverrides(t, kit.Candidates(ref), 3, true)
+	// a list element of abstract type that no implementor matches: the generated type switch panics
+	// in the element's goroutine and the list-level handler has to contain it - under every schedule
+	var abstract []string
+	for _, el := range ref.Elems {
+		if el.Abstract && el.ListLen >= 2 {
+			abstract = append(abstract, el.Key)
+		}
+	}
+	if len(abstract) > 0 && rapid.IntRange(0, 2).Draw(t, "foreign?") == 0 {
+		if c.Overrides == nil {
+			c.Overrides = map[string]plan.Outcome{}
+		}
+		c.Overrides[abstract[rapid.IntRange(0, len(abstract)-1).Draw(t, "foreignelem")]] = plan.Outcome{Kind: plan.Foreign}
+		vfrun.Label("foreign-list-element")
+	}
 	return c
 }
 
